@@ -11,7 +11,7 @@ scheduler reports DEADLOCK / LIVELOCK."""
 import vlib
 from props import C06
 
-PROP_FILES = ["Properties_C07.v"]
+PROP_FILES = ["Properties_C07.v", "Properties_C07_live.v"]
 
 
 def run(ctx):
